@@ -127,8 +127,21 @@ def run(ctx):
             args, opts, explicit = SC.gen_selection(rng, sc)
             roots = SC.build_roots(sc, opts, explicit)
             walked = [r["obj"] for r in roots if r["walk"]]
-            style = rng.choice(["full", "full", "full", "hash", "none"])
             real = (it % 2 == 0)
+            order_fake = sc.enum_random(walked, rng)
+            for style in ("full", "hash", "none"):
+                one_style(ctx, eng, res, stats, sc, args, explicit, roots, walked, style, real, order_fake, it)
+    finally:
+        eng.close()
+    res.coverage_extra["input_distribution"] = stats
+    res.assumptions = ["git 2.39.5 `rev-parse --verify` is the judge of what a description denotes"]
+    return res
+
+
+def one_style(ctx, eng, res, stats, sc, args, explicit, roots, walked, style, real, order_fake, it):
+    """One scenario under one name style (every scenario is run under all three)."""
+    if True:
+        if True:
             table_tbl = ",".join(o.hex() for o in sc.oids)
             cli = ["--json", "--no-progress", "--names=" + style] + args
             if real:
@@ -136,7 +149,7 @@ def run(ctx):
                 idx = {o.hex(): i for i, o in enumerate(sc.oids)}
                 order = [idx[h] for h in S.git_enum(gitdir, [sc.oids[x].hex() for x in walked])]
             else:
-                order = sc.enum_random(walked, rng)
+                order = order_fake
                 rc, out, err, log = eng.run_fake(sc, order, [], explicit, extra_args=cli)
                 d = gitdir = None
             inp = {"args": cli + [sp for sp, _ in explicit], "driver": "real-git" if real else "fakegit", "objects": len(sc.objects),
@@ -147,7 +160,7 @@ def run(ctx):
                 res.violations.append(vlib.Violation("run failed: %s" % err[:200].decode("latin1"), inp))
                 if d:
                     eng.drop(d)
-                continue
+                return
             j = json.loads(out)
             R = sc.reachable(walked)
             line = sc.model_line("paths " + style[0] + " " + table_tbl, order, roots, names=(style != "none"))
@@ -226,8 +239,3 @@ def run(ctx):
                 res.violations.append(vlib.Violation("the PathResolver model panics where the implementation did not: " + m, inp, nofail=True))
             if d:
                 eng.drop(d)
-    finally:
-        eng.close()
-    res.coverage_extra["input_distribution"] = stats
-    res.assumptions = ["git 2.39.5 `rev-parse --verify` is the judge of what a description denotes"]
-    return res
